@@ -360,11 +360,16 @@ func RunSync(w *tr.Writer, st *SyncStats, tid int, plan SyncPlan, rnd *rand.Rand
 
 // GenSyncPlanBig draws a large-scope plan: several hundred keys over the full nibble alphabet (wide branches), most of the
 // nodes below the root absent: the donor store holds several hundred nodes (more than any batch size of the stores).
-func GenSyncPlanBig(r *rand.Rand, via string) SyncPlan {
+func GenSyncPlanBig(r *rand.Rand, via string, scatter bool) SyncPlan {
 	var plan SyncPlan
 	plan.Via = via
 	m := map[string]string{}
 	n := 300 + r.Intn(200)
+	if scatter {
+		// several hundred scattered LEAVES absent below present branches: each of them is a missing key of its own (the
+		// list of missing keys is longer than any batch size)
+		n = 600 + r.Intn(100)
+	}
 	for len(m) < n {
 		k := make([]byte, 6)
 		for i := range k {
@@ -382,6 +387,9 @@ func GenSyncPlanBig(r *rand.Rand, via string) SyncPlan {
 		b, _ := json.Marshal([]any{bridge.Chars([]byte(k)), m[k]})
 		plan.Init = append(plan.Init, b)
 		for l := 1; l <= len(k); l++ {
+			if scatter && l != 3 {
+				continue // third level only: with this many keys the first two levels are branches
+			}
 			if p := k[:l]; !seen[p] && r.Intn(100) < 70 {
 				seen[p] = true
 				plan.Absent = append(plan.Absent, bridge.Chars([]byte(p)))
